@@ -27,11 +27,13 @@ BATCH = 15
 def generate(rng, tier, seed):
     from . import gen_coll
     gen_coll.WINDOW_CLEARS = True
+    gen_coll.WHOLE_SET_ASSIGN = True
     gen_coll.CONTAINER_INVALIDATE = True
     try:
         return _generate(rng, tier, seed)
     finally:
         gen_coll.WINDOW_CLEARS = False
+        gen_coll.WHOLE_SET_ASSIGN = False
         gen_coll.CONTAINER_INVALIDATE = False
 
 
